@@ -3,6 +3,7 @@ package main
 import (
 	"fmt"
 	"go/types"
+	"regexp"
 	"strings"
 
 	"golang.org/x/tools/go/ssa"
@@ -150,6 +151,9 @@ func (fc *FnCtx) callEffects(cc *ssa.CallCommon) effects {
 			}
 			return eff
 		}
+		if _, ok := invokePrelude["*."+cc.Method.Name()]; ok {
+			return eff
+		}
 		if _, ok := invokePrelude[ifaceKey(cc.Value.Type())+"."+cc.Method.Name()]; ok {
 			addArgs()
 			eff.worlds = false
@@ -200,6 +204,8 @@ func (fc *FnCtx) callEffects(cc *ssa.CallCommon) effects {
 	addArgs()
 	return eff
 }
+
+var emitEventRe = regexp.MustCompile(`^(emit|Emit)[A-Z].*Events?$`)
 
 var modSetDepth = 0
 
@@ -306,6 +312,10 @@ func (fr *Frame) callStatic(callee *ssa.Function, args []Val, free []Val, cc *ss
 	}
 	if isStorePurePkg(fnPkgPath(callee)) {
 		fc.dropped["store-pure call "+name] = true
+		return fr.freshResult(resT, "pure")
+	}
+	if inModule(callee) && emitEventRe.MatchString(callee.Name()) {
+		fc.dropped["event emission "+QualName(callee)+" (A-pure)"] = true
 		return fr.freshResult(resT, "pure")
 	}
 	if fc.inlinable(callee, fr.depth) {
@@ -496,6 +506,9 @@ func (fr *Frame) invoke(cc *ssa.CallCommon, recv Val, args []Val, resT types.Typ
 		return fr.viewOp(m, recv, args, cc, resT, st, reach)
 	}
 	key := ifaceKey(cc.Value.Type()) + "." + m
+	if p, ok := invokePrelude["*."+m]; ok {
+		return p.fn(&preCall{fr: fr, st: st, reach: reach, args: append([]Val{recv}, args...), cc: cc, resT: resT, name: key})
+	}
 	if p, ok := invokePrelude[key]; ok {
 		return p.fn(&preCall{fr: fr, st: st, reach: reach, args: append([]Val{recv}, args...), cc: cc, resT: resT, name: key})
 	}
